@@ -37,6 +37,8 @@ class Pipe:
         return Conn()
 
 
+_LB = {"n": 0}
+UNBUILDABLE = []                    # (data type, keys) that a data type's constructor refused while a schema instance was built
 MIXED = {"on": False, "n": 0}      # when on: only every other list item becomes a data-type object
 
 
@@ -126,7 +128,8 @@ def _conv(t, v):
             if isinstance(a, type) and dataclasses.is_dataclass(a) and isinstance(v, dict):
                 try:
                     return dataclassify(a, v)
-                except TypeError:
+                except TypeError as e:
+                    UNBUILDABLE.append((a.__name__, sorted(v), str(e)[:120]))
                     continue
             if typing.get_origin(a) in (list, typing.List) and isinstance(v, list):
                 return _conv(a, v)
@@ -143,7 +146,8 @@ def _conv(t, v):
     if isinstance(t, type) and dataclasses.is_dataclass(t) and isinstance(v, dict):
         try:
             return dataclassify(t, v)
-        except TypeError:
+        except TypeError as e:
+            UNBUILDABLE.append((t.__name__, sorted(v), str(e)[:120]))
             return v
     return v
 
@@ -235,9 +239,19 @@ def run_loopback(version, action, request_obj, behave, suppress=False, skip=Fals
 
     async def go():
         pipe = Pipe("ab", frames)
-        if handler_async is True:
+        _LB["n"] += 1
+        if handler_async is True and _LB["n"] % 2:
+            # the catch-all parameter is the application's to name
+            async def handler(self, **payload):
+                seen["kwargs"] = copy.deepcopy(payload)
+                seen["self"] = getattr(self, "id", None)
+                if handler_delay:
+                    await asyncio.sleep(handler_delay)
+                return behave(payload)
+        elif handler_async is True:
             async def handler(self, **kwargs):
                 seen["kwargs"] = copy.deepcopy(kwargs)
+                seen["self"] = getattr(self, "id", None)
                 if handler_delay:
                     await asyncio.sleep(handler_delay)
                 return behave(kwargs)
@@ -245,21 +259,25 @@ def run_loopback(version, action, request_obj, behave, suppress=False, skip=Fals
             # a plain function handing back a Task (adapters around thread pools / other transports do that)
             def handler(self, **kwargs):
                 seen["kwargs"] = copy.deepcopy(kwargs)
+                seen["self"] = getattr(self, "id", None)
 
                 async def later():
                     await asyncio.sleep(0)
                     return behave(kwargs)
                 return asyncio.ensure_future(later())
         else:
-            def handler(self, **kwargs):
-                seen["kwargs"] = copy.deepcopy(kwargs)
-                return behave(kwargs)
+            def handler(self, **_rest):
+                seen["kwargs"] = copy.deepcopy(_rest)
+                seen["self"] = getattr(self, "id", None)
+                return behave(_rest)
         handler.__name__ = "handler"
         # the handler is registered the way applications do it: through the member of the version's Action enumeration
         # that carries the action's name (the plain string where there is none)
         from harness import impl_dispatch as _D
         Bcls = type("B", (_base(version),), {"handler": on(_D.enum_member(version, action), skip_schema_validation=route_skip)(handler)} if behave is not None else {})
         A = _base(version)("A", pipe.end("a"), response_timeout=3)
+        # an older endpoint object of the same class on another connection (a central system has one per charge point)
+        Bcls("B-older", Pipe("other", []).end("b"), response_timeout=b_timeout)
         B = Bcls("B", pipe.end("b"), response_timeout=b_timeout)
         ta, tb = asyncio.ensure_future(A.start()), asyncio.ensure_future(B.start())
         out = await call_outcome(A, request_obj, suppress, skip, uid)
@@ -277,7 +295,7 @@ def run_loopback(version, action, request_obj, behave, suppress=False, skip=Fals
     calls = [m for (_, side, m) in frames if side == "a"]
     replies = [m for (_, side, m) in frames if side == "b"]
     return {"call": calls[0] if calls else None, "kwargs": seen.get("kwargs"), "reply": replies[0] if replies else None,
-            "outcome": outcome, "frames": frames}
+            "outcome": outcome, "frames": frames, "handler_self": seen.get("self")}
 
 
 async def call_outcome(cp, obj, suppress, skip, uid):
